@@ -22,7 +22,7 @@ LEVEL_TEXT = ("Seeded exploration restricted to reachable logs: the reporting fu
               "sequences would be input generation, not simulation, and is not done.")
 LEVEL_NOTE = "Trusted: the independent run-length encoder and brute-force filters in this module; reachable sequences only."
 PROBES = ["logs_encoded", "log_with_absence_flip", "log_suspended_tail", "log_reversed", "log_edited", "log_absence_removed", "extract_queries",
-          "extract_out_of_range", "plotly_rows_checked", "last_datetime_checked", "resource_absence_run"]
+          "extract_out_of_range", "log_appended_from_json", "extract_repeated_time", "plotly_rows_checked", "last_datetime_checked", "resource_absence_run"]
 
 MARGINS = (1.0, 0.0, 0.5)
 
@@ -36,12 +36,16 @@ def gen(rng, tier):
     if rng.random() < 0.4:
         focus.update(comps=True, facilities=True)
     spec = C.forward_spec(rng, tier, focus, max_time=rng.choice([5, 12, 25, 40]))
-    spec["variant"] = G.wchoice(rng, [("forward", 4), ("backward", 2), ("edited", 2), ("removed", 2)])
+    spec["variant"] = G.wchoice(rng, [("forward", 4), ("backward", 2), ("edited", 2), ("removed", 2), ("appended", 1.5)])
+    spec["k"] = rng.randint(1, 8)
     spec["reverse"] = rng.random() < 0.5
     spec["edit"] = sorted(set(rng.randint(0, 8) for _ in range(rng.randint(1, 3))))
     spec["times"] = [sorted(set(rng.randint(0, 14) for _ in range(rng.randint(1, 3)))) for _ in range(3)]
     if rng.random() < 0.3:
         spec["times"].append([rng.randint(30, 90)])
+    if rng.random() < 0.4:
+        t_ = rng.randint(0, 10)
+        spec["times"].append(rng.choice([[t_, t_], [t_ + 1, t_, t_ + 1], [t_, t_, t_ + 2]]))  # a time asked for twice, unsorted
     spec["unit_s"] = rng.choice([60, 1, 3600, 86400, 90])
     spec["last"] = [2020 + rng.randint(0, 5), rng.randint(1, 12), rng.randint(1, 28), rng.randint(0, 23), rng.randint(0, 59)]
     return spec
@@ -112,6 +116,24 @@ def run(spec):
     if variant == "backward":
         rec, out = scen.simulate(p, spec["cfg"], want_snap=False, backward={"due": False, "reverse": spec.get("reverse", True)})
         res.count("log_reversed")
+    elif variant == "appended":
+        # two phases saved separately and stitched together by the library: read_simple_json(phase 1) +
+        # append_project_log_from_simple_json(phase 2); the stitched logs are what the reports are asked about
+        rec, out = scen.simulate(p, dict(spec["cfg"], max_time=spec.get("k", 3)), want_snap=False)
+        ok = out.ok and D.call(lambda: p.write_simple_json("mem:c19a.json")).ok
+        if ok:
+            rec, out = scen.simulate(p, dict(spec["cfg"], init_state=False, init_log=True), want_snap=False)
+            ok = out.ok and D.call(lambda: p.write_simple_json("mem:c19b.json")).ok
+        if ok:
+            from .. import env
+            q = env.M.bp.BaseProject()
+            o1 = D.call(lambda: q.read_simple_json("mem:c19a.json"))
+            o2 = D.call(lambda: q.append_project_log_from_simple_json("mem:c19b.json")) if o1.ok else o1
+            if o1.ok and o2.ok:
+                p = q
+                res.count("log_appended_from_json")
+            else:
+                res.count("append_not_possible")
     else:
         rec, out = scen.simulate(p, spec["cfg"], want_snap=False)
         if variant == "edited" and out.ok:
@@ -219,6 +241,8 @@ def run(spec):
     for times in spec.get("times", []):
         if any(t >= n for t in times):
             res.count("extract_out_of_range")
+        if len(set(times)) != len(times):
+            res.count("extract_repeated_time")
         for nm, stv in (("none", D.NONE), ("ready", D.READY), ("working", D.WORKING), ("finished", D.FINISHED)):
             for kind, owner, objs, fn in (("task", p.workflow, ix.tasks, "extract_%s_task_list" % nm),
                                           ("component", p.product, ix.comps, "extract_%s_component_list" % nm)):
